@@ -553,45 +553,65 @@ class C08(Check):
         fcmp = mod.func("_convert_compare")
         probs = []
         n_and = 0
+        links_exprs = set()
         for st, _ in I1().run_function(fcmp, Sym()).returns:
             ret = next((e[1] for e in reversed(st.events) if e[0] == "return"), "")
-            single = [v for c, v in st.conds if c in ("len(links) == 1",)] + [not v for c, v in st.conds if c in ("len(links) > 1", "len(links) != 1", "len(links) >= 2")]
-            if _re.match(r"^\w+\[0\]$", ret) or ret.startswith("ITEM(0, "):
+            m_single = _re.match(r"^(?P<L>.+)\[0\]$", ret)
+            if m_single and "AST_LOGICAL_AND" not in ret:
+                L = m_single.group("L")
+                links_exprs.add(L)
+                single = [v for c, v in st.conds if c == f"len({L}) == 1"] + [not v for c, v in st.conds if c in (f"len({L}) > 1", f"len({L}) != 1", f"len({L}) >= 2")]
                 if not single or not single[0]:
                     probs.append("the first link alone is returned although the chain may have several links")
             elif "AST_LOGICAL_AND" in ret:
                 adds = [e[1] for e in st.events if e[0] == "call" and ".addChild(" in e[1]]
-                if any(".addChild(ITEM(0, " in a for a in adds):
-                    n_and += 1  # one iteration of the joining loop adds that link (paths with zero iterations of it add nothing)
-                if any(".addChild(ITEM(0, " not in a for a in adds):
-                    probs.append(f"`{adds[0][:60]}` adds something other than the links to the `and` node")
+                for a in adds:
+                    m_add = _re.search(r"\.addChild\(ITEM\(0, (?P<L>.+)\)\)$", a)
+                    if m_add:
+                        n_and += 1  # one iteration of the joining loop adds that link (paths with zero iterations of it add nothing)
+                        links_exprs.add(m_add.group("L"))
+                    else:
+                        probs.append(f"`{a[:60]}` adds something other than the links to the `and` node")
             elif ret:
                 probs.append(f"a chain is returned as `{ret[:50]}`")
         # the k-th link relates comparator k-1 to comparator k (the first one node.left to comparator 0)
         class I2(SymInterp):
             loop_unroll = 2
 
-        ok_shift = False
-        bad_shift = None
+        shift = None  # True / False / None (form not recognised)
         for st, _ in I2().run_function(fcmp, Sym()).returns:
-            apps = [e[1] for e in st.events if e[0] == "call" and ".append(" in e[1] and "ITEM(" in e[1]]
+            apps = [e[1].replace(" ", "") for e in st.events if e[0] == "call" and ".append(" in e[1] and "ITEM(" in e[1]]
             if len(apps) < 2:
                 continue
-            a0 = apps[0].replace(" ", "")
-            a1 = apps[1].replace(" ", "")
-            if "ITEM(0,node.ops)" in a0 and "node.left" in a0 and "ITEM(0,node.comparators)" in a0 and "ITEM(1,node.ops)" in a1 \
-                    and a1.index("ITEM(0,node.comparators)") < a1.index("ITEM(1,node.comparators)") if ("ITEM(0,node.comparators)" in a1 and "ITEM(1,node.comparators)" in a1) else False:
-                if "node.left" not in a1:
-                    ok_shift = True
+            a0, a1 = apps[0], apps[1]
+            good = "ITEM(0,node.ops)" in a0 and "node.left" in a0 and "ITEM(0,node.comparators)" in a0 and "ITEM(1,node.ops)" in a1 and "node.left" not in a1 \
+                and "ITEM(0,node.comparators)" in a1 and "ITEM(1,node.comparators)" in a1 and a1.index("ITEM(0,node.comparators)") < a1.index("ITEM(1,node.comparators)")
+            shift = good if shift is not False else False
+            if not good:
+                probs.append(f"the second link of a chain is built as `{apps[1][:90]}`, not from the previous comparator and the next one")
+        if shift is None:
+            for L in links_exprs:
+                try:
+                    lc = ast.parse(L, mode="eval").body
+                except SyntaxError:
                     continue
-            bad_shift = apps[1]
-        if bad_shift is not None or not ok_shift:
-            probs.append(f"the second link of a chain is built as `{(bad_shift or '?')[:90]}`, not from the previous comparator and the next one")
+                if isinstance(lc, ast.ListComp) and len(lc.generators) == 1 and not lc.generators[0].ifs:
+                    g = lc.generators[0]
+                    it_ = norm(g.iter).replace("it.pairwise", "pairwise").replace("itertools.pairwise", "pairwise").replace(", strict=True", "")
+                    tgt = norm(g.target).replace(" ", "")
+                    m_t = _re.match(r"^\(?(\w+),\((\w+),(\w+)\)\)?$", tgt)
+                    if it_ == "zip(node.ops, pairwise([node.left, *node.comparators]))" and m_t:
+                        o_, l_, r_ = m_t.groups()
+                        shift = norm(lc.elt).replace(" ", "") == f"_convert_relation({o_},_convert_node({l_}),_convert_node({r_}))"
+                        if not shift:
+                            probs.append(f"a link is built as `{norm(lc.elt)[:80]}`, not relation(op, left neighbour, right neighbour)")
         if probs or not n_and:
             self.violated("E12", MOD, fcmp.name, "chain-joined-by-and", fcmp, sorted(set(probs))[0] if probs else "no path joins several links with a logical and",
                           witness="`k if 0 < x < 2 else 0` is written as `k if 0 < x else 0`")
+        elif shift is None:
+            self.undecided_ob("E12", MOD, fcmp.name, "chain-joined-by-and", fcmp, "how consecutive links share their middle operand was not recognised")
         else:
-            self.holds("E12", MOD, fcmp.name, "chain-joined-by-and", fcmp, "one link is returned as it is, several are the children of one logical `and`")
+            self.holds("E12", MOD, fcmp.name, "chain-joined-by-and", fcmp, "one link is returned as it is, several are the children of one logical `and`; link k relates comparator k-1 to comparator k")
 
     def e7(self, mod) -> None:
         conv = mod.func("_tree_to_sbml")
